@@ -66,6 +66,16 @@ LOAD = {
     'tags_pct': lambda n: '- !!s%74%72 a\n' * n,
     'merges': lambda n: '- &b {a: 1, b: 2}\n' + '- {<<: *b, c: 2}\n' * n,
     'merge_lists': lambda n: '- &b {a: 1}\n- &c {d: 1}\n' + '- {<<: [*b, *c], e: 2}\n' * n,
+    # two dimensions growing together (merged mapping x own keys, merge list length x own keys, ...)
+    'merge_big_both': lambda n: 'b: &b\n' + ''.join('  m%d: 1\n' % i for i in range(n)) + 'x:\n  <<: *b\n' + ''.join('  o%d: 2\n' % i for i in range(n)),
+    'merge_big_overlap': lambda n: 'b: &b\n' + ''.join('  k%d: 1\n' % i for i in range(n)) + 'x:\n  <<: *b\n' + ''.join('  k%d: 2\n' % i for i in range(n)),
+    'merge_long_list': lambda n: ''.join('- &m%d {a%d: 1}\n' % (i, i) for i in range(n)) + '- <<: [' + ', '.join('*m%d' % i for i in range(n)) + ']\n' + ''.join('  o%d: 2\n' % i for i in range(n)),
+    'merge_chain_bounded': lambda n: ''.join('- &c%d {<<: %s, k%d: v}\n' % (i, ('*c%d' % (i - 1)) if i % 12 else '{z: 1}', i) for i in range(n)),
+    'dup_keys': lambda n: ''.join('k%d: v\n' % (i % 7) for i in range(n)),
+    'many_tag_directives': lambda n: ''.join('%%TAG !h%d! tag:yaml.org,2002:\n' % i for i in range(n)) + '---\n' + ''.join('- !h%d!str v\n' % i for i in range(n)),
+    'anchors_and_aliases': lambda n: ''.join('- &a%d x\n' % i for i in range(n)) + ''.join('- *a%d\n' % i for i in range(n)),
+    'pairs_big': lambda n: '!!pairs\n' + ''.join('- k%d: v\n' % (i % 5) for i in range(n)),
+    'flow_seq_values_long_keys': lambda n: ''.join('"key %d": [v, {a: b}]\n' % i for i in range(n)),
     'deep_bounded': lambda n: ('- ' * 20 + 'a\n') * n,
     'sets': lambda n: '!!set\n' + ''.join('? a%d\n' % i for i in range(n)),
     'omap': lambda n: '!!omap\n' + ''.join('- k%d: v\n' % i for i in range(n)),
